@@ -130,6 +130,9 @@ func NewSim(tape *Tape, trace bool) *Sim {
 	// every run draws its crypto/rand stream from the tape (one value; an
 	// exhausted replay tape yields stream 0)
 	installDetRand(uint64(tape.Draw(1 << 30)))
+	// pooled objects do not survive into a run: what a Get reuses is decided
+	// by this run's tape alone
+	vgirpc.VerifPoolsReset()
 	s.active.Store(true)
 	current.Store(s)
 	installHooks()
@@ -165,6 +168,23 @@ func installHooks() {
 				return s.afterFunc(site, d, fn)
 			}
 			return time.AfterFunc(d, fn)
+		}
+		vgirpc.VerifPoolPick = func(n int) int {
+			s := current.Load()
+			if s == nil || !s.active.Load() {
+				return n - 1
+			}
+			// mostly the most recent Put (what the runtime does on one P),
+			// sometimes an older one, sometimes a miss
+			switch s.Tape.Pick(0, 0, 0, 0, 0, 1, 2) {
+			case 1:
+				s.Probe("pool-older-item")
+				return s.Tape.Draw(n)
+			case 2:
+				s.Probe("pool-miss")
+				return -1
+			}
+			return n - 1
 		}
 		vgirpc.VerifListen = func(network, address string) (net.Listener, error) {
 			if f := ListenHook; f != nil {
